@@ -343,7 +343,7 @@ func c02JudgeMsgConsumer(x *c02Ctx, rec *consumerRec, sawVideoBefore bool) {
 			if !videoSoFar {
 				cl = "held-back-without-video"
 			}
-			x.bad(kind, cl, "first live item is idx %d, expected %d (replayed GOPs=%d, video sequence header published in this incarnation before admission=%v)", firstLive, firstFwd, len(rg), videoSoFar)
+			x.bad(kind, cl, "first live item is idx %d, expected %d (replayed GOPs=%d, video sequence header published in this incarnation before admission=%v); received %v; note=%q", firstLive, firstFwd, len(rg), videoSoFar, idxList(items, 24), rec.Note)
 			return
 		}
 	default:
